@@ -81,14 +81,16 @@ FFI_SHAPES = _shapes()
 
 def ffi_decls():
     """Never declarations shared by every FFI-record program"""
-    t = ["record P2 { x : int; y : int; }",
-         "func nilp() -> P2 { nil }",
-         "func prp(t : int) -> P2 { if (t == 0) { nilp() } else { P2(3, 4) } }"]
+    recs = ["record P2 { x : int; y : int; }"]
+    exts = []
     for sh in FFI_SHAPES:
         flds = " ".join("f%d : %s;" % (i, {"S": "string", "R": "P2", "I": "int"}[c]) for i, c in enumerate(sh))
-        t.append("record T_%s { %s }" % (sh, flds))
-        t.append('extern "%s" func c_%s(t : T_%s) -> int' % (FFILIB, sh, sh))
-    return "\n".join(t) + "\n"
+        recs.append("record T_%s { %s }" % (sh, flds))
+        exts.append('extern "%s" func c_%s(t : T_%s) -> int' % (FFILIB, sh, sh))
+    funcs = ["func nilp() -> P2 { nil }",
+             "func prp(t : int) -> P2 { if (t == 0) { nilp() } else { P2(3, 4) } }"]
+    # records first, then externs, then functions (the order the grammar wants)
+    return ("\n".join(recs) + "\n", "\n".join(exts) + "\n", "\n".join(funcs) + "\n")
 
 
 def ffi_lib_source():
@@ -204,7 +206,12 @@ class Program:
         s.decls = decls
 
     def src(s):
-        t = HELPERS + s.decls + "\n" + "\n\n".join(f.src() for f in s.funcs[:-1])
+        hl = HELPERS.split("\n")
+        nrec = len([l for l in hl if l.startswith("record")])
+        next_ = len([l for l in hl if l.startswith("extern")])
+        drec, dext, dfun = s.decls if s.decls else ("", "", "")
+        t = ("\n".join(hl[:nrec]) + "\n" + drec + "\n".join(hl[nrec:nrec + next_]) + "\n" + dext
+             + "\n".join(hl[nrec + next_:]) + dfun + "\n" + "\n\n".join(f.src() for f in s.funcs[:-1]))
         if s.tops:
             t += "\n;\n" + "\n".join("let %s = %s;" % (n, e.src()) for n, e in s.tops)
         return t + "\n\n" + s.funcs[-1].src() + "\n"
